@@ -9,8 +9,9 @@ CONSTANTS
   RDelims <- NoRDelims
   MaxParts = 1
   MaxOps = 1
+  MaxRetry = 1
   ContentSel = {6}
-  ProfileSel = {3}
+  ProfileSel = {2, 3}
   UseJson = FALSE
   BoundarySel = {1}
   PreSel = {1}
@@ -19,6 +20,6 @@ CONSTANTS
   LimModes = {"base"}
   EditPos <- AllPos
   EditKinds = {"del", "ins", "sub"}
-  EditVals = {45, 13, 10, 88}
+  EditVals = {45, 13, 10, 88, 233}
   Depth = 8
 INVARIANT Emit
